@@ -56,7 +56,7 @@ struct scalar_of< Eigen::Matrix<T, N, M> > {
 /// Replace scalar type in the static matrix
 template <class T, int N, int M, class S>
 struct replace_scalar< Eigen::Matrix<T, N, M>, S> {
-    typedef Eigen::Matrix<S, N, M> type;
+    typedef Eigen::Matrix<typename replace_scalar<T, S>::type, N, M> type;
 };
 
 /// RHS type corresponding to a non-scalar type.
